@@ -271,26 +271,39 @@ func (s *Sched) spawn(parent *Thread, f func(), tag string) *Thread {
 
 // callSite returns the name of the first function outside the shims on the
 // stack (e.g. "(*LoadBalancer).claimTarget").
+var (
+	siteMu    sync.Mutex
+	siteCache = map[uintptr]string{} // pc -> function name ("" = shim frame)
+)
+
 func callSite() string {
-	var pcs [16]uintptr
+	var pcs [10]uintptr
 	n := runtime.Callers(3, pcs[:])
-	frames := runtime.CallersFrames(pcs[:n])
-	for {
-		fr, more := frames.Next()
-		fn := fr.Function
-		if fn != "" && !strings.Contains(fn, "/internal/verif/") {
-			if i := strings.LastIndex(fn, "/"); i >= 0 {
-				fn = fn[i+1:]
+	siteMu.Lock()
+	defer siteMu.Unlock()
+	for _, pc := range pcs[:n] {
+		name, ok := siteCache[pc]
+		if !ok {
+			fr, _ := runtime.CallersFrames([]uintptr{pc}).Next()
+			fn := fr.Function
+			if fn == "" || strings.Contains(fn, "/internal/verif/") {
+				name = ""
+			} else {
+				if i := strings.LastIndex(fn, "/"); i >= 0 {
+					fn = fn[i+1:]
+				}
+				if i := strings.Index(fn, "."); i >= 0 {
+					fn = fn[i+1:]
+				}
+				name = fn
 			}
-			if i := strings.Index(fn, "."); i >= 0 {
-				fn = fn[i+1:]
-			}
-			return fn
+			siteCache[pc] = name
 		}
-		if !more {
-			return "?"
+		if name != "" {
+			return name
 		}
 	}
+	return "?"
 }
 
 // Point parks the calling managed thread until the scheduler selects it.
